@@ -128,10 +128,7 @@ theorem C17_sync_mismatch_err_gen (d : Decomp) (r : Reader)
     (hl : leftover d r = false) (hlim : (leaveOuter d r).limit = none)
     (h16 : 16 ≤ r.after.length) (hne : r.after.take 16 ≠ r.sync) :
     (leaveBlock d r).1 = .error .custom ∧ (leaveBlock d r).2.st = .broken := by
-  have hwf : (leaveOuter d r).WF := by
-    intro _
-    unfold leaveOuter
-    split <;> simp
+  have hwf : (leaveOuter d r).WF := leaveOuter_wf d r
   have heff : 16 ≤ (leaveOuter d r).eff := by
     rw [eff_of_limit_none hlim, leaveOuter_rest]; exact h16
   obtain ⟨o', ho', _⟩ := (readExact_spec 16 (leaveOuter d r) hwf).1 heff
@@ -152,10 +149,7 @@ theorem C17_sync_mismatch_err (d : Decomp) (r : Reader)
 theorem C17_sync_truncated_err (d : Decomp) (r : Reader)
     (hl : leftover d r = false) (h16 : r.after.length < 16) :
     ∃ e, (leaveBlock d r).1 = .error e ∧ e ≠ .panic ∧ (leaveBlock d r).2.st = .broken := by
-  have hwf : (leaveOuter d r).WF := by
-    intro _
-    unfold leaveOuter
-    split <;> simp
+  have hwf : (leaveOuter d r).WF := leaveOuter_wf d r
   have heff : (leaveOuter d r).eff < 16 := by
     have : (leaveOuter d r).eff ≤ (leaveOuter d r).rest.length := by
       unfold RState.eff; split <;> omega
